@@ -306,7 +306,9 @@ func cmdCheck(args []string) {
 			}
 		}
 		for k := range lost {
-			toolErrors = append(toolErrors, "contract clauses of kind "+k+" no longer generate obligations (contract detached from code?)")
+			// e.g. a loop that moved into a helper: its invariants cannot attach any more. Not a violation and not an
+			// error: the obligations that depended on them fail on their own if the property is affected.
+			fmt.Printf("DETACHED: contract clauses of kind %s no longer attach to the code\n", k)
 		}
 	}
 	// unused contracts (attached to nothing) are reported, not fatal
